@@ -86,6 +86,7 @@ structure St where
   widthFirst : List Nat := []
   rewriting : Bool := false
   controls : List Rat := []          -- `_controls`
+  maxLocalBufs : Option Nat := none  -- `_max_local_bufs` (the MaxLocalBufs unit, once created)
 deriving Repr, Inhabited
 
 abbrev M := StateT St (Except Err)
@@ -757,6 +758,7 @@ structure AtomSpec where
   isUGen : Bool := true
   widthFirst : Bool := false
   check : Check := .valid
+  ret : Bool := true  -- the constructor returns the unit (RandSeed/RandID/Out return None)
 deriving Repr
 
 inductive OutMode where
@@ -772,6 +774,8 @@ inductive Ev where
   /-- `cls.ar(bus, chans)` / `cls.kr(bus, chans)` of an `AbstractOut` class (Out, ReplaceOut);
       `auto`: the graph function picks `.ar` when the first channel is audio rate, else `.kr` -/
   | out (cls : String) (mode : OutMode) (bus : Arg) (chans : List Arg)
+  /-- `LocalBuf.new(frames, channels)` -/
+  | localbuf (frames channels : Arg)
 deriving Repr
 
 /-- results of the events so far: the list of channel values each returned -/
@@ -789,7 +793,7 @@ def runEv (env : Array (List Inp)) : Ev → M (List Inp)
     let o ← newObj { cls := sp.cls, kind := .atom, rate := sp.rate, inputs := vs, nOut := sp.nOut,
                      isUGen := sp.isUGen, dce := sp.dce, check := sp.check } sp.widthFirst
     if sp.multi then pure ((List.range sp.nOut).map fun k => .out o k true)
-    else if sp.nOut == 0 || !sp.isUGen then pure []
+    else if !sp.ret then pure []
     else pure [.out o 0 false]
   | .control rate vals => do
     let idx := (← get).controls.length
@@ -818,6 +822,7 @@ def runEv (env : Array (List Inp)) : Ev → M (List Inp)
       let p ← pyArith "*" va vm
       pure [← pyArith "+" p vc]
   | .out .. => throw .badProgram     -- handled by `runEv'`
+  | .localbuf .. => throw .badProgram
 
 /-- `Out.ar(bus, output)`: `_replace_zeroes_with_silence` first creates one `DC.ar(0)`
     (a pure multi-out unit, returned as its OutputProxy) and substitutes it for every literal
@@ -843,7 +848,25 @@ def runOut (cls : String) (mode : OutMode) (bus : Inp) (chans : List Inp) : M (L
                      isUGen := false, check := .out 1 }
     pure []
 
+/-- `LocalBuf._new1`: the first local buffer of a definition creates the `MaxLocalBufs` unit
+    (`MaxLocalBufs.new()` = `_multi_new('scalar', 0)`), every local buffer increments its
+    (only) input in place, then the LocalBuf unit — a width-first SynthObject, not a UGen —
+    is created with inputs (channels, frames, max_local_bufs). -/
+def runLocalBuf (frames channels : Inp) : M (List Inp) := do
+  let mlb ← match (← get).maxLocalBufs with
+    | some o => pure o
+    | none => do
+      let o ← newObj { cls := "MaxLocalBufs", kind := .atom, rate := .scalar, inputs := [.num 0] }
+      modify fun s => { s with maxLocalBufs := some o }
+      pure o
+  modObj mlb fun x => { x with inputs := x.inputs.map fun i =>
+    match i with | .num q => .num (q + 1) | j => j }
+  let o ← newObj { cls := "LocalBuf", kind := .atom, rate := .scalar,
+                   inputs := [channels, frames, .out mlb 0 false], isUGen := false } true
+  pure [.out o 0 false]
+
 def runEv' (env : Array (List Inp)) : Ev → M (List Inp)
+  | .localbuf fr ch => do runLocalBuf (← resolve env fr) (← resolve env ch)
   | .out cls mode bus chans => do
     runOut cls mode (← resolve env bus) (← chans.mapM (resolve env))
   | e => runEv env e
